@@ -563,21 +563,26 @@ func (g *sxGen) target(allowNone bool) (ref, user, cls string) {
 		}
 	}
 	r := g.rng.Intn(100)
+	anyUser := func() string { return sxUsers[g.rng.Intn(len(sxUsers))] }
 	switch {
-	case allowNone && (r < 18 || (len(live) == 0 && r < 55)):
-		return "-", sxUsers[g.rng.Intn(len(sxUsers))], "noid"
-	case r < 30 || (len(live) == 0 && len(dead) == 0):
+	case allowNone && (r < 7 || (len(live) == 0 && r < 40)):
+		u := anyUser()
+		if g.rng.Intn(3) > 0 {
+			u = sxUsers[g.rng.Intn(3)] // mostly authenticated creators, so that sessions are bound
+		}
+		return "-", u, "noid"
+	case r < 15 || (len(live) == 0 && len(dead) == 0):
 		g.unk++
-		return fmt.Sprintf("x%d", g.unk), sxUsers[g.rng.Intn(len(sxUsers))], "unknown"
-	case (r < 46 && len(dead) > 0) || len(live) == 0:
+		return fmt.Sprintf("x%d", g.unk), anyUser(), "unknown"
+	case (r < 28 && len(dead) > 0) || len(live) == 0:
 		if len(dead) == 0 {
 			g.unk++
-			return fmt.Sprintf("x%d", g.unk), sxUsers[g.rng.Intn(len(sxUsers))], "unknown"
+			return fmt.Sprintf("x%d", g.unk), anyUser(), "unknown"
 		}
 		s := dead[g.rng.Intn(len(dead))]
 		u := s.owner
 		if u == "-" || g.rng.Intn(4) == 0 {
-			u = sxUsers[g.rng.Intn(len(sxUsers))]
+			u = anyUser()
 		}
 		return fmt.Sprintf("s%d", s.ord), u, "stale"
 	}
@@ -586,7 +591,7 @@ func (g *sxGen) target(allowNone bool) (ref, user, cls string) {
 	if s.owner == "-" {
 		return ref, sxUsers[g.rng.Intn(len(sxUsers))], "unbound"
 	}
-	if g.rng.Intn(100) < 42 {
+	if g.rng.Intn(100) < 58 {
 		return ref, g.otherUser(s.owner), "foreign"
 	}
 	return ref, s.owner, "own"
@@ -594,7 +599,7 @@ func (g *sxGen) target(allowNone bool) (ref, user, cls string) {
 
 func (g *sxGen) tickOp() (string, string) {
 	// boundary instants: aim at the remaining idle time of a live idle session, -1/0/+1 ms
-	if g.timeout > 0 && g.rng.Intn(100) < 45 {
+	if g.timeout > 0 && g.rng.Intn(100) < 55 {
 		var rem []int
 		for _, s := range g.sess {
 			if s.live && s.refs == 0 {
@@ -616,6 +621,18 @@ func (g *sxGen) tickOp() (string, string) {
 }
 
 func (g *sxGen) next() (op string, tags []string) {
+	if !g.stateless {
+		nlive := 0
+		for _, s := range g.sess {
+			if s.live {
+				nlive++
+			}
+		}
+		if nlive == 0 && g.rng.Intn(100) < 65 {
+			// nothing to address: open a session (mostly as an authenticated user)
+			return fmt.Sprintf("post - %s init", sxUsers[g.rng.Intn(4)]), []string{"post-init", "id-noid"}
+		}
+	}
 	r := g.rng.Intn(100)
 	switch {
 	case r < 40:
@@ -635,10 +652,10 @@ func (g *sxGen) next() (op string, tags []string) {
 	case r < 64:
 		ref, user, cls := g.target(true)
 		return fmt.Sprintf("other %s %s", ref, user), []string{"other", "id-" + cls}
-	case r < 84:
+	case r < 77:
 		op, tag := g.tickOp()
 		return op, []string{tag}
-	case r < 92:
+	case r < 90:
 		if g.nslow > 0 {
 			k := 1 + g.rng.Intn(g.nslow)
 			return fmt.Sprintf("release %d", k), []string{"release"}
@@ -752,7 +769,11 @@ func sxRunCase(t *testing.T, out *verifOut, cs string, ops []string, gen *sxGen,
 			out.line(cs, op, obs, tags...)
 		}
 		for _, op := range ops {
-			step(op, nil)
+			var tags []string
+			if f := strings.Fields(op); gen != nil && len(f) == 4 && f[0] == "post" {
+				tags = []string{"post-" + f[3], "id-noid"}
+			}
+			step(op, tags)
 		}
 		if gen != nil {
 			for i := 0; i < nops; i++ {
@@ -797,7 +818,7 @@ func TestVerifSessions(t *testing.T) {
 			}
 		}
 	}
-	n := verifN(700, 12000)
+	n := verifN(2500, 30000)
 	for c := 0; c < n; c++ {
 		rng := verifRng(int64(c))
 		g := &sxGen{rng: rng, timeout: 100}
@@ -808,7 +829,13 @@ func TestVerifSessions(t *testing.T) {
 		case r < 20:
 			g.timeout = 0
 		}
-		first := fmt.Sprintf("reset %s %d", mode, g.timeout)
-		sxRunCase(t, out, fmt.Sprintf("g%d", c), []string{first}, g, 10+rng.Intn(28), "")
+		ops := []string{fmt.Sprintf("reset %s %d", mode, g.timeout)}
+		if !g.stateless {
+			// most histories start with one to three sessions of different users
+			for i, n := 0, rng.Intn(4); i < n; i++ {
+				ops = append(ops, fmt.Sprintf("post - %s init", sxUsers[rng.Intn(4)]))
+			}
+		}
+		sxRunCase(t, out, fmt.Sprintf("g%d", c), ops, g, 10+rng.Intn(28), "")
 	}
 }
